@@ -572,7 +572,9 @@ fn run_direct(path: &str, version: LanceFileVersion, field: &Field, block: DataB
                     // lance only chooses mini-block by itself for values narrower than 256 bytes; with wider
                     // values (user-forced mini-block) a chunk cannot always respect the limit
                     if max_row_len < 256 {
-                        return fail("chunk-bytes", &chain, "mini-block chunk exceeds the documented byte limit (8 KiB - 6)", format!("chunk {ci} of {nchunks}: {total} bytes for {} values (log_num_values {})", ch.num_values(vals_before, n), ch.log_num_values));
+                        // one signature per root cause: the fixed-width bit-packer or the variable-width (binary) chunker
+                        let root = if chain.contains("InlineBitpacking") { "bitpacking" } else if chain.contains("Variable") { "binary" } else { chain.as_str() };
+                        return fail("chunk-bytes", root, "mini-block chunk exceeds the documented byte limit (8 KiB - 6)", format!("chunk {ci} of {nchunks}: {total} bytes for {} values (log_num_values {})", ch.num_values(vals_before, n), ch.log_num_values));
                     }
                     wide_over = true;
                 }
@@ -839,6 +841,16 @@ fn low_card_strings(rng: &mut Rng, n: usize) -> ArrayRef {
     Arc::new(StringArray::from((0..n).map(|_| vals[rng.usize_below(k)].clone()).collect::<Vec<_>>()))
 }
 
+fn type_family(dt: &DataType) -> &'static str {
+    match dt {
+        DataType::Boolean => "bool",
+        DataType::Utf8 | DataType::LargeUtf8 | DataType::Binary | DataType::LargeBinary => "var",
+        DataType::Struct(_) => "struct",
+        DataType::FixedSizeList(_, _) => "fsl",
+        _ => "fixed",
+    }
+}
+
 fn file_case(report: &Report, rt: &tokio::runtime::Runtime, seed: u64, i: u64, codecs: &std::sync::Mutex<BTreeSet<String>>) {
     let mut rng = Rng::for_case(seed, (11u64 << 40) + i);
     let kind = *rng.pick(&["dict", "constant", "packed", "packed_var", "int", "float", "var", "fsl", "bool", "empty", "dict_int", "all_null"]);
@@ -876,7 +888,9 @@ fn file_case(report: &Report, rt: &tokio::runtime::Runtime, seed: u64, i: u64, c
         }
     };
     if rng.bool() {
-        meta.insert("lance-encoding:structural-encoding".into(), rng.pick(&["miniblock", "fullzip"]).to_string());
+        // forcing mini-block on a 5-70 KB value is a configuration lance cannot honour (panics in the page writer)
+        let choices: &[&str] = if pattern.ends_with("one_big") { &["fullzip"] } else { &["miniblock", "fullzip"] };
+        meta.insert("lance-encoding:structural-encoding".into(), rng.pick(choices).to_string());
     }
     let arr = if matches!(kind, "packed" | "packed_var" | "empty" | "all_null") { arr } else { with_nulls(arr, &mut rng) };
     // optionally slice the input (non-zero offset arrays)
@@ -895,29 +909,45 @@ fn file_case(report: &Report, rt: &tokio::runtime::Runtime, seed: u64, i: u64, c
         batches.push(RecordBatch::try_new(schema.clone(), vec![arr.slice(pos, len)]).unwrap());
         pos += len;
     }
+    if std::env::var("VERIF_C26_DEBUG").is_ok() {
+        eprintln!("DEBUG kind {kind} version {version} meta {meta:?} batches {:?}", batches.iter().map(|b| format!("{} rows, nulls {:?}, offset {}", b.num_rows(), b.column(0).nulls().map(|n| (n.len(), n.null_count(), n.offset())), b.column(0).to_data().offset())).collect::<Vec<_>>());
+        eprintln!("DEBUG array {:?}", arr);
+    }
     let expected: Vec<Cell> = (0..arr.len()).map(|j| cell_at(arr.as_ref(), j)).collect();
     let ctx = json!({"engine":"file","seed":seed,"case":i,"kind":kind,"pattern":pattern,"rows":arr.len(),"version":format!("{version}"),"metadata":meta});
-    let res: Result<(Vec<Vec<String>>, Vec<Cell>), String> = crate::quiet::catch(|| rt.block_on(async {
-        let f = fileio::write_file(&batches, schema.clone(), version, None, &format!("c26-{i}")).await?;
-        let r = fileio::open(&f).await?;
-        let enc = fileio::page_encodings(&r);
-        let all = fileio::read_all(&r, 4096).await?;
-        Ok((enc, all.iter().flat_map(|b| (0..b.num_rows()).map(|j| cell_at(b.column(0).as_ref(), j)).collect::<Vec<_>>()).collect()))
-    }))
-    .unwrap_or_else(|(m, l)| {
-        let (m, l) = crate::quiet::take_repo_panic().unwrap_or((m, l));
-        Err(format!("PANIC at {l}: {m}"))
+    let res: Result<(Vec<Vec<String>>, Vec<Cell>), String> = crate::quiet::run_attributed(|| {
+        rt.block_on(async {
+            let f = fileio::write_file(&batches, schema.clone(), version, None, &format!("c26-{i}")).await?;
+            let r = fileio::open(&f).await?;
+            let enc = fileio::page_encodings(&r);
+            let all = fileio::read_all(&r, 4096).await?;
+            Ok((enc, all.iter().flat_map(|b| (0..b.num_rows()).map(|j| cell_at(b.column(0).as_ref(), j)).collect::<Vec<_>>()).collect()))
+        })
     });
     match res {
         Err(e) => {
             report.case(None);
-            if unsupported_msg(&e) || e.contains("write_batch") && arr.is_empty() || e.contains("finish") && arr.is_empty() {
+            if e.contains("(not reproduced when re-run alone)") {
+                report.count("file_failures_not_reproduced_alone", 1);
+                report.inconclusive(&format!("C26 file case {i}: {e}"));
+            } else if unsupported_msg(&e) || e.contains("write_batch") && arr.is_empty() || e.contains("finish") && arr.is_empty() {
                 report.rejected();
                 report.count("file_rejected", 1);
             } else {
                 let mut c = ctx.clone();
                 c["error"] = json!(e);
-                report.violation(&format!("file-error-{kind}"), "lance-file write / read of an accepted column failed", c);
+                let forced = meta.get("lance-encoding:structural-encoding").cloned().unwrap_or_else(|| "default".into());
+                // precondition of a known defect: a batch carries a validity buffer that has no nulls (e.g. a slice
+                // of an array whose nulls are elsewhere) and the page is written full-zip
+                let all_valid_buffer = batches.iter().any(|b| b.column(0).nulls().map(|n| n.null_count() == 0).unwrap_or(false));
+                let cls = crate::quiet::failure_class(&e);
+                let sig = if all_valid_buffer && cls == "panic-repdef.rs-called-option-unwrap-on-a-none-value" {
+                    "file-error-fullzip-validity-buffer-without-nulls-panic".to_string()
+                } else {
+                    format!("file-error-{cls}-{forced}-{}", type_family(arr.data_type()))
+                };
+                c["validity_buffer_without_nulls"] = json!(all_valid_buffer);
+                report.violation(&sig, "lance-file write / read of an accepted column failed", c);
             }
         }
         Ok((enc, got)) => {
@@ -1048,11 +1078,18 @@ pub fn run(args: &Args) -> i32 {
         return report.finish();
     }
 
+    if let Some(c) = args.extra.get("filecase").and_then(|c| c.parse::<u64>().ok()) {
+        std::env::set_var("VERIF_EVIDENCE_OUT", format!("{}/work/case-evidence-C26.json", vmon::report::verif_root()));
+        std::env::set_var("VERIF_C26_DEBUG", "1");
+        let codecs: std::sync::Mutex<BTreeSet<String>> = Default::default();
+        file_case(&report, &fileio::runtime(), args.seed, c, &codecs);
+        return report.finish();
+    }
     let threads = crate::quiet::threads();
     let codecs: std::sync::Mutex<BTreeSet<String>> = Default::default();
     let rejected_msgs: std::sync::Mutex<BTreeSet<String>> = Default::default();
     let n_direct: u64 = args.tier.pick(9000, 400_000);
-    let direct_deadline = report.budget_s() as f64 * 0.6;
+    let direct_deadline = report.budget_s() as f64 * 0.5;
     let next = AtomicU64::new(0);
     std::thread::scope(|s| {
         for _ in 0..threads {
